@@ -270,6 +270,39 @@ func C09(r *h.Run) {
 			}
 		}
 	}
+	// ---- very large limits (N >= 2^32): every message of at most N bytes is accepted for ALL N,
+	// so the limit must not be narrowed to 32 bits anywhere; handler side (model cases) and
+	// client side (oracle) ----
+	for _, protoName := range protos {
+		for _, n := range []int{1 << 32, 1<<32 + 100, 1 << 33, 1<<40 + 7, 1<<62 + 1, 1<<31 - 1, 1 << 31, 1<<32 - 1} {
+			for _, algo := range []string{"", "tagA"} {
+				cfg := envCfg{Proto: protoName, Max: n, Algo: algo}
+				p1, p2 := genPayload(rng, 200), genPayload(rng, 3)
+				var body []byte
+				for _, p := range [][]byte{p1, p2} {
+					if algo != "" {
+						body = append(body, h.Frame(1, compressToy(algo, p))...)
+					} else {
+						body = append(body, h.Frame(0, p)...)
+					}
+				}
+				in := map[string]any{"proto": protoName, "limit": n, "algo": algo, "sizes": []int{200, 3}}
+				obs := envRun(r, "huge_limit", cfg, false, [][]byte{body}, h.FinCleanEOF, true, "limit of 2^32 or more")
+				if obs != nil && !(len(obs) == 3 && obs[0].Kind == "msg" && bytes.Equal(obs[0].B, p1) && obs[1].Kind == "msg" && bytes.Equal(obs[1].B, p2) && obs[2].Kind == "eof") {
+					r.Fail(h.Failure{Key: "limit/within-limit-refused", Family: "huge_limit", What: "a message of at most N bytes was not accepted (handler, N >= 2^31)", Input: in, Actual: obsStrings(obs)})
+				}
+				hdr, term, trailer := responseParts(cfg)
+				cobs, pn := clientStreamRecv(cfg, 200, hdr, h.NewChunkBody([][]byte{append(append([]byte(nil), body...), term...)}, h.FinCleanEOF), trailer)
+				r.Eval("huge_limit", fmt.Sprint("client", protoName, n, algo))
+				if pn != nil {
+					r.Fail(h.Failure{Key: "limit/panic", Family: "huge_limit", What: fmt.Sprint("panic: ", pn), Input: in})
+				} else if !(len(cobs) == 3 && cobs[0].Kind == "msg" && bytes.Equal(cobs[0].B, p1) && cobs[1].Kind == "msg" && cobs[2].Kind == "eof") {
+					r.Fail(h.Failure{Key: "limit/within-limit-refused", Family: "huge_limit", What: "client: a message of at most N bytes was not accepted (N >= 2^31)", Input: in, Actual: obsStrings(cobs)})
+				}
+			}
+		}
+	}
+
 }
 
 func min(a, b int) int {
